@@ -64,6 +64,18 @@ MUT = {
     "extra-entry-point": lambda: sub(FL, "/*\n * getCount()\n", "int snoopy_filterregistry_callFirst (char const * const filterArg)\n{\n    return snoopy_filterregistry_ptrs[0](filterArg);\n}\n\n/*\n * getCount()\n"),
     "ext-option-parser-swapped": lambda: (sub("src/configfile.c", '{ "syslog_ident",                  { SNOOPY_CONFIGFILE_OPTION_TYPE_STRING, &snoopy_configfile_parseValue_syslog_ident, ', '{ "syslog_ident",                  { SNOOPY_CONFIGFILE_OPTION_TYPE_STRING, &snoopy_configfile_parseValue_syslog_level, ')),
     # --- harmless
+    "harmless-callbyname-inverted": lambda: sub(OUT, "    if (outputId == -1) {\n        return -1;\n    }\n\n    return snoopy_outputregistry_ptrs[outputId](logMessage, outputArg);",
+                                                "    if (outputId != -1) {\n        return snoopy_outputregistry_ptrs[outputId](logMessage, outputArg);\n    }\n\n    /* No output with this name */\n    return -1;"),
+    "harmless-lookup-restyled": lambda: (
+        sub(FL, "    int filterId;\n\n    filterId = snoopy_filterregistry_getIdFromName(filterName);\n    if (filterId == -1) {\n        return -1;\n    }\n\n    return snoopy_filterregistry_ptrs[filterId](filterArg);",
+                "    const int id = snoopy_filterregistry_getIdFromName(filterName);\n    if (-1 == id)\n        return -1;\n    else\n        return snoopy_filterregistry_ptrs[id](filterArg);"),
+        sub(DS, "    if (SNOOPY_FALSE == snoopy_datasourceregistry_doesIdExist(datasourceId)) {\n        return -1;\n    }\n\n    return snoopy_datasourceregistry_ptrs[datasourceId](resultBuf, resultBufSize, datasourceArg);",
+                "    return snoopy_datasourceregistry_doesIdExist(datasourceId) ? snoopy_datasourceregistry_ptrs[datasourceId](resultBuf, resultBufSize, datasourceArg) : -1;"),
+        sub(GEN, "    for (int i=0 ; 0 != strcmp(regArray[i], \"\") ; i++) {\n        if (strcmp(regArray[i], itemName) == 0) {\n            return i;\n        }\n    }",
+                 "    int i = 0;\n    while (strcmp(regArray[i], \"\") != 0) {\n        if (0 == strcmp(regArray[i], itemName))\n            return i;\n        i++;\n    }"),
+        sub(GEN, "    if (snoopy_genericregistry_getIdFromName(regArray, itemName) == -1) {\n        return SNOOPY_FALSE;\n    } else {\n        return SNOOPY_TRUE;\n    }",
+                 "    int id = snoopy_genericregistry_getIdFromName(regArray, itemName);\n    return (id < 0) ? SNOOPY_FALSE : SNOOPY_TRUE;"),
+        sub(OUT, "    const snoopy_configuration_t *CFG;\n\n    /* Get config pointer */\n    CFG = snoopy_configuration_get();", "    const snoopy_configuration_t * const CFG = snoopy_configuration_get();")),
     "harmless-nested-as-conjunction": lambda: (sub(DS, '#ifdef SNOOPY_CONF_THREAD_SAFETY_ENABLED\n#ifdef SNOOPY_CONF_DATASOURCE_ENABLED_snoopy_threads\n    "snoopy_threads",\n#endif\n#endif\n', '#if defined(SNOOPY_CONF_THREAD_SAFETY_ENABLED) && defined(SNOOPY_CONF_DATASOURCE_ENABLED_snoopy_threads)\n    "snoopy_threads",\n#endif\n'),
                                                sub(DS, '#ifdef SNOOPY_CONF_THREAD_SAFETY_ENABLED\n#ifdef SNOOPY_CONF_DATASOURCE_ENABLED_snoopy_threads\n    snoopy_datasource_snoopy_threads,\n#endif\n#endif\n', '#if defined(SNOOPY_CONF_THREAD_SAFETY_ENABLED) && defined(SNOOPY_CONF_DATASOURCE_ENABLED_snoopy_threads)\n    snoopy_datasource_snoopy_threads,\n#endif\n')),
     "harmless-pair-moved": lambda: (sub(DS, '#ifdef SNOOPY_CONF_DATASOURCE_ENABLED_uid\n    "uid",\n#endif\n', ''), sub(DS, "#ifdef SNOOPY_CONF_DATASOURCE_ENABLED_uid\n    snoopy_datasource_uid,\n#endif\n", ""),
